@@ -78,6 +78,8 @@ func Main(args []string) int {
 		runTamper(*stride, *startAt, *intent != "")
 	case "otdev":
 		runOTVoleDev(*stride)
+	case "signdev":
+		runSignDev(*stride)
 	default:
 		fmt.Println("unknown mode")
 		return 2
